@@ -136,7 +136,7 @@ def _py_equal_earlier(lst, i):
 def path_features(doc, comps, form="object"):
     """Named input features of a path (classifier predicates): 'falsy-value',
     'repeated-element', 'embedded-object' (object form only), 'uppercase-key',
-    'depth>=2', 'list-index'."""
+    'list-in-list', 'depth>=2', 'list-index'."""
     f = set()
     ok, value = resolve(doc, join(comps))
     if not ok:
@@ -144,6 +144,7 @@ def path_features(doc, comps, form="object"):
     if isinstance(value, (bool, int, float, str, list, dict)) and not value:
         f.add("falsy-value")
     cur = doc
+    prev_was_index = False
     for c in comps:
         m = _INDEX_RE.match(c)
         if isinstance(cur, list) and m:
@@ -151,8 +152,12 @@ def path_features(doc, comps, form="object"):
             if _py_equal_earlier(cur, i):
                 f.add("repeated-element")
             f.add("list-index")
+            if prev_was_index:
+                f.add("list-in-list")       # element of a list that is itself a list element
+            prev_was_index = True
             cur = cur[i]
         else:
+            prev_was_index = False
             cur = cur[c]
         if any("A" <= ch <= "Z" for ch in c):
             f.add("uppercase-key")
@@ -163,7 +168,7 @@ def path_features(doc, comps, form="object"):
     return f
 
 
-QUESTIONED = ("uppercase-key", "embedded-object", "repeated-element", "falsy-value")
+QUESTIONED = ("uppercase-key", "embedded-object", "list-in-list", "repeated-element", "falsy-value")
 
 
 def value_class(v):
@@ -440,6 +445,8 @@ def selftest():
     assert "embedded-object" in path_features(doc, ("external_references", "[0]", "source_name"))
     assert "embedded-object" not in path_features(doc, ("external_references", "[0]", "source_name"), form="dict")
     assert "embedded-object" not in path_features(doc, ("external_references", "[0]"))
+    assert "list-in-list" in path_features({"x": [[1, 2]]}, ("x", "[0]", "[1]")) and "list-in-list" not in path_features({"x": [[1, 2]]}, ("x", "[0]"))
+    assert "list-in-list" not in path_features({"x": [{"y": [1]}]}, ("x", "[0]", "y", "[0]"))
     for kind in NEAR_KINDS:
         for a in range(6):
             for b in range(4):
